@@ -12,7 +12,8 @@ def one(args):
     from ocv.__main__ import analyse
     from ocv.core import VIOLATION, UNKNOWN
     from ocv.patching import patched_sources
-    src = patched_sources(f"{d}/{owner}/patch_{owner}.diff")
+    base = patched_sources(os.environ["WAVE_BASE"]) if os.environ.get("WAVE_BASE") else None
+    src = patched_sources(f"{d}/{owner}/patch_{owner}.diff", base=base)
     if src is None:
         return owner, prop, "nopatch", []
     try:
